@@ -412,6 +412,7 @@ pub fn gen_op(
                             };
                             if let Some(d) = donor_hash {
                                 b[pos].commit.block_id.hash = d;
+                                TWO_DEFECT_BATCHES.fetch_add(1, std::sync::atomic::Ordering::Relaxed);
                             }
                         }
                     }
@@ -496,6 +497,8 @@ pub fn gen_par(rng: &mut StdRng, u: &Universe, stored: &[(u64, u64)], interferin
     };
     if pair.0.is_empty() || pair.1.is_empty() { None } else { Some(pair) }
 }
+
+static TWO_DEFECT_BATCHES: std::sync::atomic::AtomicU64 = std::sync::atomic::AtomicU64::new(0);
 
 async fn history<S: Store>(
     s: &S,
@@ -883,6 +886,7 @@ pub fn record(args: &Args) {
     sum.set("events", json!(n));
     sum.set("runs", json!(runs * 2));
     sum.set("runs_through_either_store", json!(runs / 2 * 2));
+    sum.set("two_defect_batches", json!(TWO_DEFECT_BATCHES.load(std::sync::atomic::Ordering::Relaxed)));
     sum.set("backend_result_disagreements", json!(disagreements));
     sum.set("backend_metadata_disagreements", json!(meta_disagreements));
     sum.write(args.opt("summary").unwrap_or("/dev/stdout"));
